@@ -350,6 +350,10 @@ func init() {
 		p.timers["default"] = p.argInt(args[0])
 		return nil
 	})
+	reg(v("vTimerFor"), func(p *Path, _ *frame, _ *ssa.Function, args []Value) Value {
+		p.timers[p.argStr(args[0])] = p.argInt(args[1])
+		return nil
+	})
 	reg(v("vMapPerm"), func(p *Path, _ *frame, _ *ssa.Function, args []Value) Value {
 		p.mapPerm = args[0].(*Term).IsTrue()
 		return nil
@@ -582,13 +586,25 @@ func (p *Path) now() *Term {
 }
 
 func (p *Path) newTimerChan(label string) *Chan {
+	label = label + "@" + p.callerName
 	ch := p.makeChan(timeType(p), 1, "timer:"+label)
 	mode := p.timers["default"]
+	// per-call-site policies (vTimerFor): the longest matching key wins
+	best := -1
+	for k, m := range p.timers {
+		if k != "default" && strings.Contains(label, k) && len(k) > best {
+			best, mode = len(k), m
+		}
+	}
 	fire := false
 	switch mode {
 	case 3: // the next timer fires, later ones do not
 		fire = true
-		p.timers["default"] = 0
+		if best < 0 {
+			p.timers["default"] = 0
+		}
+	case 4: // elapses only when nothing else in the system can make progress
+		p.lateTimers = append(p.lateTimers, ch)
 	case 1:
 		fire = true
 	case 2:
